@@ -144,7 +144,7 @@ CATALOG = [
     ("S", lambda r: ["seqgen", "--start", "1", "--stop", str(r.choice([0, 1, 5, 499, 500, 501, 1200])), "-f", "i"]),
     # second catalogue batch: more verbs with state that crosses batch boundaries or look-ahead
     ("S", lambda r: ["repeat", "-n", str(r.randint(1, 3))]),
-    ("S", lambda r: ["step", "-a", "shift_lead,ratio,rprod", "-f", "i"]),
+    ("S", lambda r: ["step", "-a", "shift_lead,ratio,rsum", "-f", "i"]),
     ("S", lambda r: ["step", "-a", r.choice(["slwin_2_2", "slwin_0_3,from-first", "slwin_1_0"]), "-f", r.choice(["x", "i"])]),
     ("S", lambda r: ["step", "-a", "shift_lag_2,delta_2,shift_lead_2", "-f", "i", "-g", "a"]),
     ("S", lambda r: ["stats1", "-s", "-a", "sum,count", "-f", "i"]),
@@ -191,7 +191,6 @@ CATALOG = [
     ("N", lambda r: ["top", "-n", "2", "-f", "i", "--min", "-g", "b"]),
     ("N", lambda r: ["stats1", "-a", "null_count,count,antimode,minlen", "--fr", "^[ix]$", "-g", "a"]),
     ("N", lambda r: ["count-distinct", "-f", "a,b", "-u"]),
-    ("N", lambda r: ["sort-within-records", "-r"]),
     ("N", lambda r: ["nest", "--implode", "--values", "--across-records", "-f", "i", "--nested-fs", ";"]),
     ("N", lambda r: ["put", "-q", r.choice(["@recs[NR] = $*; end { for (k, v in @recs) { emit v } }",
                                             "@sum += $i; @cnt += 1; end { emit (@sum, @cnt) }",
